@@ -191,8 +191,14 @@ func (collection *linkCollectionImpl) GetLinks(tx *bbolt.Tx, id string) []string
 }
 
 func (collection *linkCollectionImpl) IterateLinks(tx *bbolt.Tx, id []byte) ast.SeekableSetCursor {
-	fieldBucket := collection.getFieldBucket(tx, id)
-	if !fieldBucket.HasError() {
+	// reading the links must not create the (empty) links bucket: the integrity check iterates links in
+	// check-only mode, and read transactions can't create buckets at all
+	entityBucket := collection.field.GetStore().GetEntityBucket(tx, id)
+	if entityBucket == nil {
+		return ast.EmptyCursor
+	}
+	fieldBucket := entityBucket.GetPath(collection.field.GetPath()...)
+	if fieldBucket != nil && !fieldBucket.HasError() {
 		return fieldBucket.IterateStringList()
 	}
 	return ast.EmptyCursor
